@@ -105,3 +105,7 @@ def check(ck: Check) -> None:
     ck.run("R04.4", "height index", lambda: r04_4(ck))
     ck.run("R04.5", "readers", lambda: r04_5(ck))
     ck.run("R04.6", "forks()", lambda: r04_6(ck))
+    from .common import rule_ctor_identity
+    ck.run("R04.7", "CoinState stores what it is given", lambda: rule_ctor_identity(
+        ck, "R04.7", "skepticoin.coinstate.CoinState",
+        ["block_by_hash", "unspent_transaction_outs_by_hash", "block_by_height_by_hash", "heads", "current_chain_hash"]))
